@@ -71,8 +71,17 @@ def heap_read(eng, ref, field):
         v = V(ty, z3.Select(field_array(eng, cls, field), ref.t))
         on_field_read(eng, k, ref, field, v)
         return v
-    if field in k.class_consts:
-        return eng.lit(k.class_consts[field])
+    if not k.external:
+        modname, clsname = k.qualname.rsplit('.', 1)
+        mod = eng.repo.modules.get(modname)
+        ci = mod.classes.get(clsname) if mod is not None else None
+        if ci is not None and field in ci.assigns and field not in ci.methods:
+            saved = eng.unit_module
+            eng.unit_module = mod
+            try:
+                return eng.eval_class_const(ci, field)        # class-level constant, read from /repo
+            finally:
+                eng.unit_module = saved
     # a method of the class
     m = find_method(eng, k, field)
     if m is not None:
